@@ -315,7 +315,8 @@ static __attribute__((pure)) long int
 __strf_tot_corr(struct dt_dtdur_s dur)
 {
 	if (dur.durtyp == DT_DURS && dur.tai) {
-		return dur.corr;
+		/* the sign is printed separately, up front */
+		return dur.corr >= 0 ? dur.corr : -dur.corr;
 	}
 	/* otherwise no corrections */
 	return 0;
